@@ -227,11 +227,14 @@ def run_corpus(ctx, cfg):
     if not os.path.isdir(d):
         return
     pairs = []
+    other = {}
     for i, f in enumerate(sorted(os.listdir(d))):
         if not f.endswith(".json"):
             continue
         item = json.load(open(os.path.join(d, f)))
         if item.get("family", "q") != "q":
+            other.setdefault(item["family"], []).append(item)
+            ctx.count("corpus")
             continue
         sc = copy.deepcopy(item["scenario"])
         sc["id"] = 10_000_000 + i
@@ -240,6 +243,11 @@ def run_corpus(ctx, cfg):
         ctx.count("corpus")
     if pairs:
         run_pairs(ctx, pairs, cfg["observables"], label="corpus")
+    for fam, items in other.items():
+        for fn in cfg["extra"]:
+            if getattr(fn, "family", None) == fam:
+                fn.corpus(ctx, items)
+                break
 
 
 # ------------------------------------------------------------------ registry
@@ -302,6 +310,11 @@ def replay(ctx, cfg, rp):
         run_pairs(ctx, [(sc, py)], rp.get("observables") or cfg["observables"], label="replay")
         print("python record:", json.dumps(py)[:1500])
         return not ctx.violations
+    if fam.startswith("oracle:"):
+        detail, _ = oracles.CHECKS[fam.split(":", 1)[1]](sc)
+        if detail:
+            ctx.violations.append(dict(level="spec", what=fam, detail=detail, scenario=sc, family=fam))
+        return not detail
     for fn in cfg["extra"]:
         if getattr(fn, "family", None) == fam:
             return fn.replay(ctx, rp)
@@ -309,6 +322,7 @@ def replay(ctx, cfg, rp):
 
 
 import oracles  # noqa: E402  (python-side support oracles; registers nothing by itself)
+import families  # noqa: E402
 
 register("C01", streams=[Q("child", apis=["find_matches"], src=False, maxlen=5)],
          observables=["results"], oracles=[oracles.identity_oracle],
@@ -344,3 +358,12 @@ register("C17", streams=[Q("all", apis=["find_matches", "get_match"], src=None)]
 register("C20", streams=[Q("all", apis=["find_matches"], src=None, nexts="drain")],
          observables=["attempts", "results_exc"], oracles=[oracles.work_bound_oracle, oracles.cyclic_oracle],
          rule="number of trace events of a drained search compared with the specification's attempt count and with 2 x examinations; cyclic dict/list structures with the real budget as support")
+
+register("C08", extra=[families.MutateFamily("set", 1500, 60000, "outcome and whole object graph of set_ / set_match histories")],
+         rule="histories of 1-10 set_/set_match calls (no cascade) on one evolving document; parent part of any step kind, last step key/index incl. negative, ==len, beyond, wrong kind, other step kinds, the root; values fresh or aliases of existing objects; the same expression objects reused across calls; non-trivial = the history changed the document; compared: outcome class, returned value identity, the whole reachable object graph under canonical object numbers after every call")
+register("C09", extra=[families.MutateFamily("cascade", 1500, 60000, "outcome and object graph of cascading set_ / get(store_default) histories")],
+         rule="histories of cascading set_/set_match and get(..., store_default=True) on key/index paths that exist up to a random level (wrong type at some level, append vs index 0 vs other indices), interleaved with pops that remove created levels; expression objects reused")
+register("C10", extra=[families.MutateFamily("pop", 1500, 60000, "outcome and object graph of pop / pop_match / set_ histories")],
+         rule="histories of pop (with/without default), pop_match (must_match on/off) and set_ on one evolving document; any parent part, any last step, negative indices, the root")
+register("C14", extra=[families.MutateFamily("handles", 1500, 60000, "outcome and object graph of Match.data assignment / del / pop histories")],
+         rule="1-4 live Match handles (several on the same slot, on shifting list items, obtained through filters / recursion / wildcards) x sequences of m.data = v, del m.data, m.pop(default), m.data reads")
